@@ -5,8 +5,6 @@ import (
 	"go/ast"
 	"go/token"
 	"go/types"
-	"sort"
-	"strings"
 
 	"rscheck/core"
 	"rscheck/pat"
@@ -14,450 +12,6 @@ import (
 
 // ---------------------------------------------------------------------------
 // polynomials with integer coefficients over named symbols
-
-type poly map[string]int64 // monomial ("" = constant, "a*b" sorted) -> coefficient
-
-func konst(k int64) poly { return poly{"": k}.norm() }
-func sym(s string) poly  { return poly{s: 1} }
-
-func (p poly) norm() poly {
-	for m, c := range p {
-		if c == 0 {
-			delete(p, m)
-		}
-	}
-	return p
-}
-
-func (p poly) add(q poly, sign int64) poly {
-	r := poly{}
-	for m, c := range p {
-		r[m] += c
-	}
-	for m, c := range q {
-		r[m] += sign * c
-	}
-	return r.norm()
-}
-
-func (p poly) mul(q poly) poly {
-	r := poly{}
-	for m1, c1 := range p {
-		for m2, c2 := range q {
-			var f []string
-			if m1 != "" {
-				f = append(f, strings.Split(m1, "*")...)
-			}
-			if m2 != "" {
-				f = append(f, strings.Split(m2, "*")...)
-			}
-			sort.Strings(f)
-			r[strings.Join(f, "*")] += c1 * c2
-		}
-	}
-	return r.norm()
-}
-
-func (p poly) eq(q poly) bool { return len(p.add(q, -1)) == 0 }
-
-func (p poly) isConst() (int64, bool) {
-	if len(p) == 0 {
-		return 0, true
-	}
-	if c, ok := p[""]; ok && len(p) == 1 {
-		return c, true
-	}
-	return 0, false
-}
-
-// affine returns (a, b) when p = a*s + b.
-func (p poly) affine(s string) (int64, int64, bool) {
-	for m := range p {
-		if m != "" && m != s {
-			return 0, 0, false
-		}
-	}
-	return p[s], p[""], true
-}
-
-func (p poly) String() string {
-	var ms []string
-	for m := range p {
-		ms = append(ms, m)
-	}
-	sort.Strings(ms)
-	var sb strings.Builder
-	for _, m := range ms {
-		c := p[m]
-		switch {
-		case m == "":
-			fmt.Fprintf(&sb, "%+d", c)
-		case c == 1:
-			sb.WriteString("+" + m)
-		case c == -1:
-			sb.WriteString("-" + m)
-		default:
-			fmt.Fprintf(&sb, "%+d*%s", c, m)
-		}
-	}
-	if sb.Len() == 0 {
-		return "0"
-	}
-	return strings.TrimPrefix(sb.String(), "+")
-}
-
-// ---------------------------------------------------------------------------
-// symbolic evaluation of getMatchKeys' integer expressions
-
-type evaluator struct {
-	info   *types.Info
-	cmd    types.Object // the redisCommand parameter
-	args   types.Object // the argument-vector parameter
-	fields map[string]poly
-	env    map[types.Object]poly
-	lenK   types.Object // slice of kept positions: len(it) is the symbol k
-	ctx    *core.Ctx    // to follow same-package helpers that compute integers (cmd.keyRange(len(args)))
-	depth  int
-	body   ast.Node // function body: single-assignment locals not yet in env are resolved lazily
-	busy   map[types.Object]bool
-	opaque int
-}
-
-func strip(info *types.Info, e ast.Expr) ast.Expr {
-	for {
-		e = ast.Unparen(e)
-		call, ok := e.(*ast.CallExpr)
-		if !ok || len(call.Args) != 1 {
-			return e
-		}
-		if tv, ok := info.Types[call.Fun]; !ok || !tv.IsType() {
-			return e
-		}
-		e = call.Args[0]
-	}
-}
-
-func objOf(info *types.Info, e ast.Expr) types.Object {
-	if e == nil {
-		return nil
-	}
-	if id, ok := ast.Unparen(e).(*ast.Ident); ok {
-		return core.ObjOf(info, id)
-	}
-	return nil
-}
-
-func (ev *evaluator) eval(e ast.Expr) (poly, bool) {
-	e = strip(ev.info, e)
-	if k, ok := core.IntConst(ev.info, e); ok {
-		return konst(k), true
-	}
-	switch x := e.(type) {
-	case *ast.Ident:
-		o := objOf(ev.info, x)
-		if p, ok := ev.env[o]; ok {
-			return p, true
-		}
-		// a local assigned exactly once (anywhere, e.g. hoisted size/offset
-		// expressions) stands for its definition, evaluated in the current environment
-		if ev.body != nil && o != nil && !ev.busy[o] {
-			if d := singleDef(ev.info, ev.body, o); d != nil {
-				if ev.busy == nil {
-					ev.busy = map[types.Object]bool{}
-				}
-				ev.busy[o] = true
-				p, ok := ev.eval(d)
-				delete(ev.busy, o)
-				return p, ok
-			}
-		}
-		return nil, false
-	case *ast.SelectorExpr:
-		if objOf(ev.info, x.X) == ev.cmd && ev.cmd != nil {
-			p, ok := ev.fields[x.Sel.Name]
-			return p, ok
-		}
-	case *ast.IndexExpr:
-		// arr[a]: the position of the a-th kept key
-		if o := objOf(ev.info, x.X); o != nil && o == ev.lenK {
-			if idx, ok := ev.eval(x.Index); ok {
-				if name, one := singleSym(idx); one {
-					return sym("@" + name), true
-				}
-			}
-		}
-	case *ast.CallExpr:
-		if res, ok := ev.call(x); ok && len(res) == 1 {
-			return res[0], true
-		}
-		if b, ok := core.Callee(ev.info, x).(*types.Builtin); ok && b.Name() == "len" && len(x.Args) == 1 {
-			if o := objOf(ev.info, x.Args[0]); o != nil && o == ev.args {
-				return sym("n"), true
-			} else if o != nil && o == ev.lenK {
-				return sym("k"), true
-			}
-		}
-	case *ast.UnaryExpr:
-		if p, ok := ev.eval(x.X); ok && x.Op == token.SUB {
-			return konst(0).add(p, -1), true
-		}
-	case *ast.BinaryExpr:
-		l, ok1 := ev.eval(x.X)
-		r, ok2 := ev.eval(x.Y)
-		if !ok1 || !ok2 {
-			return nil, false
-		}
-		switch x.Op {
-		case token.ADD:
-			return l.add(r, 1), true
-		case token.SUB:
-			return l.add(r, -1), true
-		case token.MUL:
-			return l.mul(r), true
-		}
-	}
-	return nil, false
-}
-
-// cond decides a comparison whose two sides differ by a constant.
-func (ev *evaluator) cond(e ast.Expr) (val, ok bool) {
-	be, isBin := ast.Unparen(e).(*ast.BinaryExpr)
-	if !isBin {
-		return false, false
-	}
-	l, ok1 := ev.eval(be.X)
-	r, ok2 := ev.eval(be.Y)
-	if !ok1 || !ok2 {
-		return false, false
-	}
-	d, isC := l.add(r, -1).isConst()
-	if !isC {
-		return false, false
-	}
-	switch be.Op {
-	case token.LSS:
-		return d < 0, true
-	case token.LEQ:
-		return d <= 0, true
-	case token.GTR:
-		return d > 0, true
-	case token.GEQ:
-		return d >= 0, true
-	case token.EQL:
-		return d == 0, true
-	case token.NEQ:
-		return d != 0, true
-	}
-	return false, false
-}
-
-// call evaluates a call of a same-package function or method whose body is
-// straight-line integer code ending in a return: parameters are bound to the
-// evaluated arguments, the receiver (or a parameter) that is the command struct
-// keeps giving access to its fields, the args vector keeps its length symbol.
-// Results that are not integers are nil.
-func (ev *evaluator) call(call *ast.CallExpr) ([]poly, bool) {
-	if ev.ctx == nil || ev.depth > 1 {
-		return nil, false
-	}
-	f := core.CalleeFunc(ev.info, call)
-	if f == nil || f.Pkg() == nil || ev.cmd == nil || f.Pkg() != ev.cmd.Pkg() {
-		return nil, false
-	}
-	hf := ev.ctx.FnOf(f)
-	if hf == nil || hf.Decl.Body == nil {
-		return nil, false
-	}
-	sig := f.Type().(*types.Signature)
-	sub := &evaluator{info: ev.info, fields: ev.fields, env: map[types.Object]poly{}, ctx: ev.ctx, depth: ev.depth + 1, lenK: nil}
-	bindTo := func(param types.Object, arg ast.Expr) {
-		switch o := objOf(ev.info, arg); {
-		case o != nil && o == ev.cmd:
-			sub.cmd = param
-		case o != nil && o == ev.args:
-			sub.args = param
-		default:
-			if p, ok := ev.eval(arg); ok {
-				sub.env[param] = p
-			}
-		}
-	}
-	if sig.Recv() != nil {
-		if sel, ok := ast.Unparen(call.Fun).(*ast.SelectorExpr); ok {
-			bindTo(sig.Recv(), sel.X)
-		}
-	}
-	if sig.Params().Len() != len(call.Args) || sig.Variadic() {
-		return nil, false
-	}
-	for i := 0; i < sig.Params().Len(); i++ {
-		bindTo(sig.Params().At(i), call.Args[i])
-	}
-	for i := 0; i < sig.Results().Len(); i++ {
-		if r := sig.Results().At(i); r.Name() != "" {
-			if b, ok := r.Type().Underlying().(*types.Basic); ok && b.Info()&types.IsInteger != 0 {
-				sub.env[r] = konst(0)
-			}
-		}
-	}
-	list := hf.Decl.Body.List
-	if len(list) == 0 {
-		return nil, false
-	}
-	ret, ok := list[len(list)-1].(*ast.ReturnStmt)
-	if !ok {
-		return nil, false
-	}
-	for _, st := range list[:len(list)-1] { // no other exit, nothing but integer bookkeeping
-		bad := false
-		ast.Inspect(st, func(n ast.Node) bool {
-			switch n.(type) {
-			case *ast.ReturnStmt, *ast.ForStmt, *ast.RangeStmt, *ast.GoStmt, *ast.DeferStmt, *ast.BranchStmt:
-				bad = true
-			}
-			return true
-		})
-		if bad {
-			return nil, false
-		}
-	}
-	sub.exec(list[:len(list)-1])
-	if sub.opaque > 0 {
-		ev.opaque += sub.opaque
-	}
-	out := make([]poly, sig.Results().Len())
-	for i := range out {
-		if len(ret.Results) == len(out) {
-			if p, ok := sub.eval(ret.Results[i]); ok {
-				out[i] = p
-			}
-		} else if len(ret.Results) == 0 {
-			if p, ok := sub.env[sig.Results().At(i)]; ok {
-				out[i] = p
-			}
-		} else {
-			return nil, false
-		}
-	}
-	return out, true
-}
-
-// exec runs straight-line integer statements; an `if` whose condition cannot
-// be decided makes every variable assigned inside opaque.
-func (ev *evaluator) exec(stmts []ast.Stmt) {
-	for _, s := range stmts {
-		switch st := s.(type) {
-		case *ast.AssignStmt:
-			if len(st.Rhs) == 1 && len(st.Lhs) > 1 && (st.Tok == token.ASSIGN || st.Tok == token.DEFINE) {
-				// first, last, step := cmd.keyRange(len(args))
-				if call, ok := ast.Unparen(st.Rhs[0]).(*ast.CallExpr); ok {
-					res, ok := ev.call(call)
-					for i, l := range st.Lhs {
-						if o := objOf(ev.info, l); o != nil {
-							if ok && i < len(res) && res[i] != nil {
-								ev.env[o] = res[i]
-							} else {
-								delete(ev.env, o)
-							}
-						}
-					}
-					continue
-				}
-			}
-			for i, l := range st.Lhs {
-				o := objOf(ev.info, l)
-				if o == nil {
-					continue
-				}
-				r := core.AssignedTo(st, i)
-				var p poly
-				ok := false
-				if r != nil {
-					p, ok = ev.eval(r)
-				}
-				switch st.Tok {
-				case token.ASSIGN, token.DEFINE:
-				case token.ADD_ASSIGN, token.SUB_ASSIGN:
-					old, had := ev.env[o]
-					if ok && had {
-						p = old.add(p, map[token.Token]int64{token.ADD_ASSIGN: 1, token.SUB_ASSIGN: -1}[st.Tok])
-					} else {
-						ok = false
-					}
-				default:
-					ok = false
-				}
-				if ok {
-					ev.env[o] = p
-				} else {
-					delete(ev.env, o)
-				}
-			}
-		case *ast.IncDecStmt:
-			if o := objOf(ev.info, st.X); o != nil {
-				if old, had := ev.env[o]; had {
-					d := int64(1)
-					if st.Tok == token.DEC {
-						d = -1
-					}
-					ev.env[o] = old.add(konst(d), 1)
-				}
-			}
-		case *ast.DeclStmt:
-			if gd, ok := st.Decl.(*ast.GenDecl); ok {
-				for _, sp := range gd.Specs {
-					if vs, ok := sp.(*ast.ValueSpec); ok {
-						for i, nm := range vs.Names {
-							o := ev.info.Defs[nm]
-							if i < len(vs.Values) {
-								if p, ok := ev.eval(vs.Values[i]); ok {
-									ev.env[o] = p
-								}
-							} else if b, ok := o.Type().Underlying().(*types.Basic); ok && b.Info()&types.IsInteger != 0 {
-								ev.env[o] = konst(0)
-							}
-						}
-					}
-				}
-			}
-		case *ast.IfStmt:
-			if st.Init != nil {
-				ev.exec([]ast.Stmt{st.Init})
-			}
-			if v, ok := ev.cond(st.Cond); ok {
-				if v {
-					ev.exec(st.Body.List)
-				} else if eb, ok := st.Else.(*ast.BlockStmt); ok {
-					ev.exec(eb.List)
-				} else if ei, ok := st.Else.(*ast.IfStmt); ok {
-					ev.exec([]ast.Stmt{ei})
-				}
-				continue
-			}
-			ast.Inspect(st, func(n ast.Node) bool {
-				var lhs []ast.Expr
-				switch a := n.(type) {
-				case *ast.AssignStmt:
-					lhs = a.Lhs
-				case *ast.IncDecStmt:
-					lhs = []ast.Expr{a.X}
-				}
-				for _, l := range lhs {
-					if o := objOf(ev.info, l); o != nil {
-						if _, tracked := ev.env[o]; tracked {
-							ev.opaque++
-							ev.env[o] = sym("$" + o.Name())
-						}
-					}
-				}
-				return true
-			})
-		}
-	}
-}
-
-// ---------------------------------------------------------------------------
-// R1: the skeleton of the interpreter
 
 type interp struct {
 	c        *core.Ctx
@@ -476,10 +30,11 @@ type interp struct {
 	after    []ast.Stmt // the copy-out phase: statements behind the key loop (interpreted, see copyout.go)
 	// where the key loop lives: getMatchKeys itself or a same-package helper it calls
 	keyFn    *core.Fn
-	keyArgs  types.Object // the argument vector as seen by the key loop
-	recArr   ast.Expr     // the slice the key loop records into (== arr unless in a helper)
-	appended bool         // positions are recorded with append, their number is len(arr)
-	binds    []paramBind  // helper parameters <- caller arguments
+	keyArgs  types.Object          // the argument vector as seen by the key loop
+	recArr   ast.Expr              // the slice the key loop records into (== arr unless in a helper)
+	appended bool                  // positions are recorded with append, their number is len(arr)
+	arrs     map[types.Object]bool // arr and the locals it is copied to behind the key loop
+	binds    []paramBind           // helper parameters <- caller arguments
 }
 
 type paramBind struct {
@@ -569,6 +124,81 @@ func enclosingLoops(root, n ast.Node) []ast.Stmt {
 	return out
 }
 
+// flatten splices nested plain blocks into the statement list: a block only
+// limits the scope of the names declared in it, the statements run in the same
+// order (expanding a helper in place leaves its body in such a block).
+func flatten(list []ast.Stmt) []ast.Stmt {
+	var out []ast.Stmt
+	for _, s := range list {
+		if b, ok := s.(*ast.BlockStmt); ok {
+			out = append(out, flatten(b.List)...)
+		} else {
+			out = append(out, s)
+		}
+	}
+	return out
+}
+
+// isArr: e is the slice of kept positions, under one of its names.
+func (it *interp) isArr(e ast.Expr) bool {
+	o := objOf(it.info, e)
+	return o != nil && it.arrs[o]
+}
+
+// aliases collects the locals the recorded positions are copied to behind the
+// key loop (`positions = recorded`, at top level, the only value they ever get),
+// provided the slice is not written any more once the loop is over.
+func (it *interp) aliases(after []ast.Stmt) {
+	info := it.info
+	it.arrs = map[types.Object]bool{}
+	if o := objOf(info, it.arr); o != nil {
+		it.arrs[o] = true
+	}
+	for changed := true; changed; {
+		changed = false
+		for _, s := range after {
+			as, ok := s.(*ast.AssignStmt)
+			if !ok || len(as.Lhs) != len(as.Rhs) || as.Tok != token.ASSIGN && as.Tok != token.DEFINE {
+				continue
+			}
+			for i, l := range as.Lhs {
+				lo := objOf(info, l)
+				if lo == nil || it.arrs[lo] || !it.isArr(as.Rhs[i]) || singleDef(info, it.fn.Decl.Body, lo) != as.Rhs[i] {
+					continue
+				}
+				it.arrs[lo] = true
+				changed = true
+			}
+		}
+	}
+	if len(it.arrs) < 2 {
+		return
+	}
+	// a later write to any of the names would make them differ
+	for _, s := range after {
+		ast.Inspect(s, func(n ast.Node) bool {
+			as, ok := n.(*ast.AssignStmt)
+			if !ok {
+				return true
+			}
+			for i, l := range as.Lhs {
+				t := l
+				if ie, isIdx := ast.Unparen(l).(*ast.IndexExpr); isIdx {
+					t = ie.X
+				}
+				if !it.isArr(t) {
+					continue
+				}
+				if t == l && len(as.Lhs) == len(as.Rhs) && it.isArr(as.Rhs[i]) && (as.Tok == token.ASSIGN || as.Tok == token.DEFINE) {
+					continue // the copy itself
+				}
+				it.arrs = map[types.Object]bool{objOf(info, it.arr): true}
+			}
+			return true
+		})
+	}
+}
+
 // recover reads the interpreter's skeleton; "" on success, else what is missing.
 func (it *interp) recover(filterKey *types.Func) string {
 	info, body := it.info, it.fn.Decl.Body
@@ -600,7 +230,7 @@ func (it *interp) recover(filterKey *types.Func) string {
 		return len(core.Calls(n, info, func(_ *ast.CallExpr, o types.Object) bool { return o == types.Object(filterKey) })) > 0
 	}
 	topLoop := func(fn *core.Fn) *ast.ForStmt {
-		for _, s := range fn.Decl.Body.List {
+		for _, s := range flatten(fn.Decl.Body.List) {
 			if f, ok := s.(*ast.ForStmt); ok && hasFK(f.Body) {
 				return f
 			}
@@ -609,7 +239,8 @@ func (it *interp) recover(filterKey *types.Func) string {
 	}
 	var helperAs *ast.AssignStmt
 	at := -1
-	for i, s := range body.List {
+	top := flatten(body.List)
+	for i, s := range top {
 		if f, ok := s.(*ast.ForStmt); ok && hasFK(f.Body) {
 			it.keyLoop, it.keyFn, it.keyArgs, at = f, it.fn, info.Defs[it.argsP], i
 			break
@@ -643,7 +274,7 @@ func (it *interp) recover(filterKey *types.Func) string {
 	if it.keyLoop == nil || it.keyArgs == nil {
 		return "no top-level loop testing keys with FilterKey (here or in a helper called with args)"
 	}
-	it.preamble = append([]ast.Stmt{}, body.List[:at]...)
+	it.preamble = append([]ast.Stmt{}, top[:at]...)
 	var hok bool
 	it.loopVar, it.eF, it.eL, it.cmpOp, it.eS, hok = forHeader(info, it.keyLoop)
 	if !hok {
@@ -680,20 +311,28 @@ func (it *interp) recover(filterKey *types.Func) string {
 	if objOf(info, it.arr) == nil {
 		return "position array is not a local variable"
 	}
+	it.after = top[at+1:]
+	it.aliases(it.after)
 	if it.appended { // the number of kept keys is len(arr), usually named once
 		it.num = nil
 		ast.Inspect(body, func(n ast.Node) bool {
 			if as, ok := n.(*ast.AssignStmt); ok && len(as.Lhs) == 1 && len(as.Rhs) == 1 && it.num == nil {
-				if pat.Expr("len(_arr)").Match(info, as.Rhs[0], pat.Binds{"_arr": it.arr}) != nil && singleDef(info, body, objOf(info, as.Lhs[0])) != nil {
+				if b := pat.Expr("len(_arr)").Match(info, as.Rhs[0], nil); b != nil && it.isArr(b["_arr"].(ast.Expr)) && singleDef(info, body, objOf(info, as.Lhs[0])) != nil {
 					it.num = as.Lhs[0]
 				}
 			}
 			return true
 		})
 		if it.num == nil {
-			if n, _ := pat.Expr("len(_arr)").Find(info, body, pat.Binds{"_arr": it.arr}); n != nil {
-				it.num = n.(ast.Expr)
-			} else {
+			ast.Inspect(body, func(n ast.Node) bool {
+				if x, isExpr := n.(ast.Expr); isExpr && it.num == nil {
+					if b := pat.Expr("len(_arr)").Match(info, x, nil); b != nil && it.isArr(b["_arr"].(ast.Expr)) {
+						it.num = x
+					}
+				}
+				return true
+			})
+			if it.num == nil {
 				return "the number of kept positions len(arr) is never used"
 			}
 		}
@@ -701,7 +340,6 @@ func (it *interp) recover(filterKey *types.Func) string {
 		return "position counter is not a local variable"
 	}
 	// the copy-out phase is interpreted, not matched: try it once on symbolic f, l, s
-	it.after = body.List[at+1:]
 	if _, why := it.runCopyOut(it.newEval(nil, nil, nil)).classify(); why != "" {
 		return "cannot follow how the rebuilt vector is filled: " + why
 	}
@@ -716,7 +354,7 @@ func (it *interp) newEval(f, l, s *int64) *evaluator {
 	} else {
 		ev.fields[it.fnames[0]], ev.fields[it.fnames[1]], ev.fields[it.fnames[2]] = konst(*f), konst(*l), konst(*s)
 	}
-	ev.lenK = objOf(it.info, it.arr)
+	ev.lenK = it.arrs
 	pre := it.preamble
 	ev.exec(pre)
 	// from here on we are behind the key loop: the counter holds the number of
